@@ -22,7 +22,7 @@
          (C16_rejected_unchanged_refuted_specialise, C16_rejected_unchanged_refuted_partial_update). *)
 From Coq Require Import List Arith Bool String NArith.
 Import ListNotations.
-From PV Require Import C16.GenTables C16.Model C16.Names C16.Inv C16.MergeProofs C16.RenameProofs C16.StateInv C16.Proofs C16.Witness.
+From PV Require Import C16.GenTables C16.Model C16.Names C16.Inv C16.MergeProofs C16.RenameProofs C16.StateInv C16.Proofs C16.Witness C16.CodeBlocks.
 Open Scope string_scope.
 Open Scope list_scope.
 
@@ -297,3 +297,79 @@ Example C16_lookup_nonvacuous :
   snd (step (fst (step (fst (step st (ORemove (TSlot 0) 1))) (ODetach 1))) (OLookup (TSlot 0) "a")) = RErr EKey.
 Proof. exact lookup_nonvacuous. Qed.
 Print Assumptions C16_lookup_nonvacuous.
+
+(* ---- extension with CodeBlocks (C16/CodeBlocks.v): every scope carries the normalised names mentioned
+   in CodeBlocks of its tree; rename_symbol refuses such a symbol after all its other checks and
+   before the dry_run return; check_for_clashes/merge decide through that dry run ---- *)
+
+(* a rename that is refused -- for whatever reason, a CodeBlock access included -- leaves the whole
+   state unchanged; and a symbol named in a CodeBlock in scope IS refused with SymbolError, dry run or not *)
+Theorem C16_rename_codeblock_rejected_unchanged : forall cbs st t s name dry st' e,
+    rename_step_cb cbs st t s name dry = (st', RErr e) -> st' = st.
+Proof. exact rename_rejected_unchanged_cb. Qed.
+Print Assumptions C16_rename_codeblock_rejected_unchanged.
+
+Theorem C16_rename_codeblock_refused : forall cbs st t T s name dry,
+    get_table st t = Some T -> rename_check (st_heap st) T s name = None ->
+    In (normalize (s_name (hget (st_heap st) s))) (cb_of cbs t) ->
+    rename_step_cb cbs st t s name dry = (st, RErr ESymbol).
+Proof. exact rename_codeblock_refused. Qed.
+Print Assumptions C16_rename_codeblock_refused.
+
+(* dry_run=True never changes anything and succeeds / fails (with the same exception) exactly when the
+   real rename would *)
+Theorem C16_dry_run_pure : forall cb h T s name,
+    TOK h T ->
+    (forall r, rename_symbol_cb cb h T s name true = inl r -> r = (h, T)) /\
+    (forall e, rename_symbol_cb cb h T s name true = inr e <-> rename_symbol_cb cb h T s name false = inr e) /\
+    ((exists r, rename_symbol_cb cb h T s name true = inl r) <->
+     (exists r, rename_symbol_cb cb h T s name false = inl r)).
+Proof. exact dry_run_pure_full_. Qed.
+Print Assumptions C16_dry_run_pure.
+
+Theorem C16_dry_run_state_unchanged : forall cbs st t s name st' r,
+    rename_step_cb cbs st t s name true = (st', r) ->
+    st_slots st' = st_slots st /\ st_det st' = st_det st /\ st_heap st' = st_heap st.
+Proof. exact dry_run_state_unchanged_. Qed.
+Print Assumptions C16_dry_run_state_unchanged.
+
+(* a clash between an ordinary local symbol of the receiving table that cannot be renamed (named in a
+   CodeBlock, argument, common block ...) and a symbol of the other table that cannot be renamed either
+   is rejected by check_for_clashes, and merge leaves heap and both tables as they were.  Partial: one
+   clashing pair, no unresolved symbol of the receiving table named like an intrinsic (otherwise
+   check_for_clashes may already have specialised symbols: the open finding A). *)
+Theorem C16_merge_unrenameable_clash_rejected_upfront_partial : forall cb h self anc other skip os ts e2,
+    no_intrinsic_unresolved h self ->
+    In os (sids other) -> ~ In os skip ->
+    find_key (normalize (s_name (hget h os))) (t_syms self) = Some ts ->
+    plain_local h ts ->
+    rename_check_cb cb h self ts "" = Some ESymbol ->
+    rename_check_cb [] h other os "" = Some e2 ->
+    exists e, check_for_clashes_cb cb h self anc other skip = (h, Some e) /\
+              merge_cb cb h self anc other skip = (mkM h self other, MRejected, Some e).
+Proof. exact merge_unrenameable_clash_rejected_upfront_partial_. Qed.
+Print Assumptions C16_merge_unrenameable_clash_rejected_upfront_partial.
+
+Example C16_rename_codeblock_nonvacuous :
+  rename_step_cb cb_cbs cb_st (TSlot 0) 0 "z" false = (cb_st, RErr ESymbol) /\
+  rename_step_cb cb_cbs cb_st (TSlot 0) 0 "z" true = (cb_st, RErr ESymbol) /\
+  rename_step_cb cb_cbs cb_st (TSlot 0) 0 "Y" false = (cb_st, RErr EKey) /\
+  snd (rename_step_cb cb_cbs cb_st (TSlot 0) 1 "z" false) = RUnit /\
+  rename_step_cb cb_cbs cb_st (TSlot 0) 1 "z" true = (cb_st, RUnit) /\
+  snd (rename_step_cb [[]; []] cb_st (TSlot 0) 0 "z" false) = RUnit.
+Proof. exact rename_codeblock_nonvacuous. Qed.
+Print Assumptions C16_rename_codeblock_nonvacuous.
+
+Example C16_merge_unrenameable_nonvacuous :
+  exists T Ot,
+    get_table cb_st (TSlot 0) = Some T /\ nth_error (st_det cb_st) 0 = Some Ot /\
+    no_intrinsic_unresolved (st_heap cb_st) T /\ In 3 (sids Ot) /\
+    find_key (normalize (s_name (hget (st_heap cb_st) 3))) (t_syms T) = Some 0 /\
+    plain_local (st_heap cb_st) 0 /\
+    rename_check_cb ["x"] (st_heap cb_st) T 0 "" = Some ESymbol /\
+    rename_check_cb [] (st_heap cb_st) Ot 3 "" = Some ESymbol /\
+    merge_cb ["x"] (st_heap cb_st) T [] Ot [] = (mkM (st_heap cb_st) T Ot, MRejected, Some ESymbol) /\
+    (exists m, merge_cb [] (st_heap cb_st) T [] Ot [] = (m, MDone, None) /\
+               map (fun s => s_name (hget (m_heap m) s)) (sids (m_self m)) = ["y"; "first"; "X_1"; "X"]).
+Proof. exact merge_unrenameable_nonvacuous. Qed.
+Print Assumptions C16_merge_unrenameable_nonvacuous.
